@@ -218,7 +218,9 @@ static QByteArray generateHmac(QCryptographicHash::Algorithm algorithm, const QB
     QCryptographicHash hasher(algorithm);
 
     const int B = 64;
-    QByteArray kpad = key + QByteArray(B - key.size(), 0);
+    // RFC 2104: keys longer than the block size are hashed first
+    const QByteArray blockKey = key.size() > B ? QCryptographicHash::hash(key, algorithm) : key;
+    QByteArray kpad = blockKey + QByteArray(B - blockKey.size(), 0);
 
     QByteArray ba;
     for (int i = 0; i < B; ++i) {
